@@ -36,6 +36,7 @@ type Op struct {
 	Start    int64  `json:"-"` // unix nanos
 	End      int64  `json:"-"`
 	Gid      uint64 `json:"-"`
+	ModTime  int64  `json:"-"` // stat / lstat: modification time reported (unix nanos)
 }
 
 func (o Op) String() string {
@@ -191,7 +192,13 @@ func clean(p string) string {
 // do runs one operation through hooks, faults and recording. exec performs the real operation and
 // returns (bytes, error). For "short" faults exec receives short=true.
 func (c *Client) do(op Op, exec func(short bool) (int, error)) (int, error) {
+	return c.doP(&op, exec)
+}
+
+// doP is do with the operation passed by reference, so that exec can add result details to the record.
+func (c *Client) doP(opp *Op, exec func(short bool) (int, error)) (int, error) {
 	b := c.b
+	op := *opp
 	op.Client = c.name
 	op.Gid = 0
 	if b.Before != nil {
@@ -221,6 +228,7 @@ func (c *Client) do(op Op, exec func(short bool) (int, error)) (int, error) {
 	switch {
 	case fault == nil:
 		n, err = exec(false)
+		op.ModTime = opp.ModTime
 	case fault.Kind == "revoke":
 		c.revoked.Store(true)
 		op.Injected = true
@@ -343,9 +351,13 @@ func (f *baseFs) Rename(oldname, newname string) error {
 
 func (f *baseFs) Stat(name string) (os.FileInfo, error) {
 	var fi os.FileInfo
-	_, err := f.c.do(Op{Kind: "stat", Path: clean(name)}, func(bool) (int, error) {
+	op := Op{Kind: "stat", Path: clean(name)}
+	_, err := f.c.doP(&op, func(bool) (int, error) {
 		var e error
 		fi, e = f.c.b.Inner.Stat(name)
+		if e == nil && fi != nil {
+			op.ModTime = fi.ModTime().UnixNano()
+		}
 		return 0, e
 	})
 	return fi, err
